@@ -2,7 +2,8 @@
 from common import *
 import scripts, itertools
 
-THEOREMS = ['generic_total', 'generic_never_panics', 'nested_never_panics_definite', 'nested_never_panics_indefinite', 'fuel_adequate', 'generic_terminates', 'leaves_run', 'stepG0_err_panic', 'parseValue_consumes']
+THEOREMS = ['generic_total', 'generic_never_panics', 'nested_never_panics_definite', 'nested_never_panics_indefinite', 'fuel_adequate', 'generic_terminates', 'leaves_run', 'stepG0_err_panic', 'parseValue_consumes', 'Bcder.Props.C01b.int_total', 'Bcder.Props.C01b.bool_total', 'Bcder.Props.C01b.null_total', 'Bcder.Props.C01b.integer_total', 'Bcder.Props.C01b.unsigned_total', 'Bcder.Props.C01b.oid_total', 'Bcder.Props.C01b.bits_total', 'Bcder.Props.C01b.octets_prim_total', 'Bcder.Props.C01b.octets_cons_der_total', 'Bcder.Props.C01b.octets_cons_ber_total', 'Bcder.Props.C01b.chars_total', 'Bcder.Props.C01b.skip_total']
+EXTRA_MODULES = ['C01b']
 RULE = ("the malformed streams of all other properties through every entry point (generic reads, typed readers for every value type, skip, "
         "capture, Captured::decode[_partial], OctetString as a source) in 3 modes over slice and contract-asserting streaming sources, then "
         "every accessor / iterator / comparison / formatter / conversion of what was accepted; all octet strings of length <= 1 (and a sample "
@@ -139,5 +140,5 @@ def nontrivial(req, ans):
     return True
 
 LEVEL = "proof"
-LEVEL_TEXT = ("PARTIAL (the logic part is proved, the runtime part is explored). Lean 4 theorems for ALL octet strings, all modes: Mode::decode with the generic reader ends in a value with everything consumed, a content error, or the model's out-of-fuel marker - never in one of the model's panic sites (index, unwrap, assertion, advance past limit) - at top level and inside definite parents with any limit and indefinite parents (generic_total, generic_never_panics, nested_never_panics_*); a loop budget of input length + 2 is never exhausted, i.e. the number of loop iterations and the recursion depth are bounded by the input length because every value consumes at least its two header octets (fuel_adequate, generic_terminates, parseValue_consumes) - the never-loops-forever part; source operations fail only as contract panics and routines whose failure leaves are content errors can only end in those (stepG0_err_panic, leaves_run). The typed accessors are shown total (ok or content error on every content) by the theorems of C14, C15, C18, C19, C20. Runtime part, on every run against the real crate: ~250k requests through every entry point in 3 modes over slice and contract-asserting streaming sources, all accessors of accepted values, 100000-level nestings on a 256 KiB stack, declared lengths up to 2^32-1, metered peak heap <= 16 x input + 64 KiB, hang watchdog; any PANIC/CONTRACT/HANG/ABORT answer is a violation.")
+LEVEL_TEXT = ("PARTIAL (the logic part is proved, the runtime part is explored). Lean 4 theorems for ALL octet strings, all modes: Mode::decode with the generic reader ends in a value with everything consumed, a content error, or the model's out-of-fuel marker - never in one of the model's panic sites (index, unwrap, assertion, advance past limit) - at top level and inside definite parents with any limit and indefinite parents (generic_total, generic_never_panics, nested_never_panics_*); a loop budget of input length + 2 is never exhausted, i.e. the number of loop iterations and the recursion depth are bounded by the input length because every value consumes at least its two header octets (fuel_adequate, generic_terminates, parseValue_consumes) - the never-loops-forever part; source operations fail only as contract panics and routines whose failure leaves are content errors can only end in those (stepG0_err_panic, leaves_run). The typed accessors and skipping are total on every content - a value or a content error (octet strings and skip: or the loop budget), never a panic site: Props/C01b.lean collects int_total (all ten INTEGER types), bool_total, null_total, integer_total, unsigned_total, oid_total, bits_total, octets_prim_total, octets_cons_*_total, chars_total, skip_total from the per-type theorems of C14-C20, C10 and C16b. Runtime part, on every run against the real crate: ~250k requests through every entry point in 3 modes over slice and contract-asserting streaming sources, all accessors of accepted values, 100000-level nestings on a 256 KiB stack, declared lengths up to 2^32-1, metered peak heap <= 16 x input + 64 KiB, hang watchdog; any PANIC/CONTRACT/HANG/ABORT answer is a violation.")
 LEVEL_NOTE = ("Trusted: Lean 4.33 kernel; axioms propext, Classical.choice, Quot.sound only; the hand-written model tied to /repo on every run by differential correspondence. NOT expressible in the model and therefore not proved: call-stack depth of the Rust code, aborts on allocation failure, allocation volume, wall-clock hangs, integer overflow checks of the compiled code (the harness is built with overflow checks on) - these are explored by the implementation driver only. skip/capture/typed-reader totality at the program level rests on C10/C11/C14-C20 and on the correspondence check; documented caller-misuse panics are excluded.")
